@@ -116,6 +116,38 @@ def f_dangling(members):
         yield "dangling:%s#%s" % (rn, attrs.get("Id")), m
 
 
+def f_dangling2(members):
+    """Two relationships of one source lead to the SAME absent part (a deleted image two shapes used; two voided targets)."""
+    by_item = {}
+    for rn, i, attrs, tgt in iter_rels(members):
+        if tgt is not None:
+            by_item.setdefault(rn, []).append((i, attrs.get("Id")))
+    for rn, lst in by_item.items():
+        for (i, a), (j, b) in zip(lst, lst[1:]):
+            root = etree.fromstring(members[rn])
+            root[i].set("Target", "NULL")
+            root[j].set("Target", "NULL")
+            m = dict(members)
+            m[rn] = _ser(root)
+            yield "dangling2:%s#%s+%s" % (rn, a, b), m
+
+
+def f_delpart(members):
+    """A part that relationships lead to is absent (every relationship to it dangles, from however many sources)."""
+    mp = main_part(members)
+    targeted = {}
+    for rn, i, attrs, tgt in iter_rels(members):
+        if tgt is not None:
+            targeted[tgt] = targeted.get(tgt, 0) + 1
+    for tgt, n in sorted(targeted.items()):
+        if tgt == mp or tgt[1:] not in members:
+            continue
+        m = dict(members)
+        del m[tgt[1:]]
+        m.pop(rels_name_of(tgt), None)
+        yield "delpart:%s(x%d)" % (tgt, n), m
+
+
 def f_delrels(members):
     for rn in rels_members(members):
         if rn == "_rels/.rels":
@@ -311,7 +343,7 @@ def f_refusals(members):
 
 def all_single_faults(members, known_types) -> list[tuple[str, dict]]:
     out = [("none", dict(members))]
-    for gen in (f_dangling, f_delrels, f_nocore, f_caseflip, f_extra, f_rename_slides, f_refusals):
+    for gen in (f_dangling, f_dangling2, f_delpart, f_delrels, f_nocore, f_caseflip, f_extra, f_rename_slides, f_refusals):
         out += list(gen(members))
     out += list(f_unknown_ct(members, known_types))
     return out
